@@ -246,6 +246,10 @@ func runC08(c *runCfg) error {
 				ps = append(ps, bindP{v: []byte{0, 1, 0, 255}})
 			case i%5 == 3:
 				ps = append(ps, bindP{v: []byte(fmt.Sprintf("value-%d-with-some-length", i))})
+			case i%10 == 4:
+				ps = append(ps, bindP{v: []byte("ends with NUL\x00")})
+			case i%10 == 9:
+				ps = append(ps, bindP{v: []byte{0}})
 			default:
 				ps = append(ps, bindP{v: []byte(fmt.Sprint(i))})
 			}
